@@ -7,6 +7,31 @@ ROOT = os.path.dirname(os.path.dirname(os.path.abspath(__file__)))
 ALL = ["C%02d" % i for i in range(1, 21)]
 
 CLAIMED = {
+    "C01": dict(
+        category="model_checking",
+        text="MC_GF2 proves by exhaustive model checking (all matrix pairs, n<=5) the linear-algebra lemmas the verdict rests on (rank = dim of span, "
+             "Enc onto/injective iff full rank, rank n-k + orthogonality => zero syndrome iff codeword). Every full-rank generator matrix of small "
+             "shapes is enumerated by TLC and built in the real code; for every catalogue object (all families x parameters x information sets) "
+             "the published G/H and recorded Encode/Syndrome calls are validated by Trace_BlockCode, which recomputes m.G, w.H^T and membership.",
+        design_ref="7/C01",
+        note="Published matrices are the object's claim; vectors above 30 bits use limbs; messages exhaustive for k<=8 (quick) / 12 (thorough), seeded above.",
+        technique="TLA+ spec GF2/BlockCode + TLC: oracle model checking, TLC-enumerated generator matrices, trace validation of recorded calls"),
+    "C03": dict(
+        category="model_checking",
+        text="MC_Families shows the spec's own constructions of every family have exactly the closed-form (n,k,d), are cyclic / divisible by g(X) and "
+             "meet the sphere-packing bound. For every catalogue object TLC computes the true minimum distance from the published generator matrix "
+             "(exhaustive enumeration for k<=16, H-column independence for d<=5 above), cyclic closure, g | X^n+1, divisibility and perfection.",
+        design_ref="7/C03",
+        note="Distance undecided (reported NOTCOVERED by the spec) when k>16 and d>5; RM m=6 / BCH mu=6 objects above these bounds are only partially covered.",
+        technique="TLA+ spec Families/BlockCode + TLC: design-level model checking of constructions, trace validation of advertised parameters"),
+    "C04": dict(
+        category="model_checking",
+        text="For every catalogue object and every inverse method (inverse_encode, extract_message, project_word) the recorded message -> codeword -> "
+             "message round trips, all layouts (1-D, (B,.), (B1,B2,.), 1..4 blocks) and rejections are validated by Trace_BlockCode: each block is "
+             "recomputed with Enc(m,G) from the published generator matrix and the shape law is evaluated by TLC.",
+        design_ref="7/C04",
+        note="GF(2) oracle checked by MC_GF2; messages exhaustive for k<=8 (quick) / 12 (thorough).",
+        technique="TLA+ spec BlockCode + TLC trace validation of recorded round trips and layouts"),
     "C16": dict(
         category="model_checking",
         text="TLC checks partition/order independence, the BER<=BLER<=min(1,B*BER) sandwich, symmetry and reset on every history of "
